@@ -116,4 +116,4 @@ class OdLookup(Contract):
         w.pre.update(case=case)
         return Call(("func", "env.drivers", "od_lookup"), [w.cls(case)])
 
-    ensures = {"index-name-dotted-agree": lambda s: And(s.returned, s.ret is True)}
+    ensures = {"index-name-dotted-agree": lambda s: And(s.returned, S.is_true(s.ret))}
